@@ -30,7 +30,7 @@ caught=[l.split()[0] for l in catch if re.match(r'C\d+ rc=1',l)]
 missed=[l.split()[0] for l in catch if re.match(r'C\d+ rc=0',l)]
 other=[l.split()[0]+':'+l.split()[1] for l in catch if re.match(r'C\d+ rc=[2-9]',l)]
 json.dump({
- "id":id,"breaks_property":prop,"round":2,
+ "id":id,"breaks_property":prop,"round":int(os.environ.get("ROUND","2")),
  "origin":"fresh sub-agent given only the property text and a scratch worktree of /repo",
  "needs_to_manifest":notes,
  "confirmed":{"demo_passes_on_clean_tree":True,"demo_fails_with_change":True,"baseline_547_still_pass":True,
